@@ -528,8 +528,9 @@ def _load_pyx(symbolic):
     order = ['core', 'circular_overlap', 'elliptical_overlap',
              'rectangular_overlap']
     for name in order:
-        src = open(os.path.join(REPO, 'photutils', 'geometry',
-                                name + '.pyx')).read()
+        pyxdir = os.environ.get('VERIF_PYX_DIR', os.path.join(
+            REPO, 'photutils', 'geometry'))   # override for self-tests only
+        src = open(os.path.join(pyxdir, name + '.pyx')).read()
         py = convert(src)
         py = py.replace('from .core import', '# from .core import')
         exec(compile(py, name + '.pyx->py', 'exec'), ns)
@@ -620,6 +621,218 @@ def _run_kernel(case):
     return dict(stats=st, findings=f, samples=samples, nontrivial=cnt['n'])
 
 
+
+# ---------------------------------------------------------------- exact circle kernel (algebraic skeleton)
+D4 = [lambda x, y: (x, y), lambda x, y: (-x, y), lambda x, y: (x, -y),
+      lambda x, y: (-x, -y), lambda x, y: (y, x), lambda x, y: (-y, x),
+      lambda x, y: (y, -x), lambda x, y: (-y, -x)]
+
+
+def _run_exactsplit(case):
+    """circular_overlap_single_exact: the recursive quadrant split, with
+    circular_overlap_core replaced by a recording stub.  Every core call must
+    satisfy the core's precondition and be the image, under a symmetry of the
+    circle, of a sub-rectangle of the pixel; the sub-rectangles tile the
+    pixel (areas add up, interiors disjoint); the result is the sum of the
+    core values."""
+    from .. import facade
+    facade.install()
+    ns = _load_pyx(True)
+    cnt = dict(n=0)
+    samples = []
+
+    def fn(ctx):
+        xmin, ymin = ctx.real('xmin'), ctx.real('ymin')
+        xmax, ymax = ctx.real('xmax'), ctx.real('ymax')
+        r = ctx.real('r')
+        ctx.assume(z3.And(xmin.e < xmax.e, ymin.e < ymax.e, r.e > 0))
+        calls = []
+
+        def core(a, b, c, d, rr):
+            v = SymReal(ctx.fresh('core'))
+            calls.append((a, b, c, d, rr, v))
+            return v
+        ns['circular_overlap_core'] = core
+        res = ns['circular_overlap_single_exact'](xmin, ymin, xmax, ymax, r)
+        cnt['n'] += 1
+        groups = {}
+        T = lambda v: term(const(v))  # noqa
+        pulled = []
+        for k, (a, b, c, d, rr, v) in enumerate(calls):
+            a, b, c, d = T(a), T(b), T(c), T(d)
+            groups.setdefault('precondition', []).append(
+                z3.And(a >= 0, b >= 0, a <= c, b <= d, T(rr) == r.e))
+            # which symmetry maps the core rectangle back into the pixel?
+            found = None
+            for gi, g in enumerate(D4):
+                (px0, py0), (px1, py1) = g(a, b), g(c, d)
+                lox = z3.If(px0 <= px1, px0, px1)
+                hix = z3.If(px0 <= px1, px1, px0)
+                loy = z3.If(py0 <= py1, py0, py1)
+                hiy = z3.If(py0 <= py1, py1, py0)
+                inside = z3.And(lox >= xmin.e, hix <= xmax.e,
+                                loy >= ymin.e, hiy <= ymax.e)
+                if ctx._check(z3.Not(inside)) == z3.unsat:
+                    found = (lox, hix, loy, hiy)
+                    break
+            ctx.stats.obligations += 1
+            if found is None:
+                ctx.stats.sat += 1
+                ctx.find('exact:split:not-a-subrectangle', f'core call {k} is '
+                         'not the image of a sub-rectangle of the pixel under '
+                         'a symmetry of the circle', ctx.witness(),
+                         params=dict(kind='exactsplit'))
+                return
+            ctx.stats.unsat += 1
+            pulled.append(found)
+        area = sum(((hx - lx) * (hy - ly) for lx, hx, ly, hy in pulled),
+                   z3.RealVal(0))
+        groups['tiling-area'] = [area == (xmax.e - xmin.e) * (ymax.e - ymin.e)]
+        dis = []
+        for i in range(len(pulled)):
+            for j in range(i + 1, len(pulled)):
+                a_, b_ = pulled[i], pulled[j]
+                dis.append(z3.Or(a_[1] <= b_[0], b_[1] <= a_[0],
+                                 a_[3] <= b_[2], b_[3] <= a_[2]))
+        groups['tiling-disjoint'] = dis or [z3.BoolVal(True)]
+        groups['sum'] = [T(res) == sum((T(c[5]) for c in calls),
+                                       z3.RealVal(0))]
+        if case.get('twin'):
+            groups['sum'] = [T(res) == sum((T(c[5]) for c in calls[1:]),
+                                           z3.RealVal(0))]
+        for site, cl in groups.items():
+            r_, m = ctx.holds(z3.And(cl), site)
+            if r_ == 'sat':
+                ctx.find(f'exact:split:{site}', 'quadrant split of '
+                         'circular_overlap_single_exact: ' + site,
+                         ctx.witness(m), params=dict(kind='exactsplit'))
+        if len(samples) < 2:
+            samples.append(dict(ncore=len(calls)))
+
+    _, st, f = explore(fn, timeout_ms=30000)
+    return dict(stats=st, findings=f, samples=samples, nontrivial=cnt['n'])
+
+
+def _run_exactcore(case):
+    """circular_overlap_core with area_arc uninterpreted: trivial branches are
+    justified by NRA lemmas; in the other branches the chord end points lie
+    on the circle and on the pixel boundary, area_arc is called once with
+    them, and the polygonal part equals the shoelace area of (corners inside
+    the circle + chord end points)."""
+    from .. import facade
+    facade.install()
+    ns = _load_pyx(True)
+    cnt = dict(n=0)
+    samples = []
+
+    def shoelace(pts):
+        s = z3.RealVal(0)
+        n = len(pts)
+        for i in range(n):
+            x1, y1 = pts[i]
+            x2, y2 = pts[(i + 1) % n]
+            s = s + (x1 * y2 - x2 * y1)
+        return s / 2
+
+    def fn(ctx):
+        xmin, ymin = ctx.real('xmin'), ctx.real('ymin')
+        xmax, ymax = ctx.real('xmax'), ctx.real('ymax')
+        r = ctx.real('r')
+        ctx.assume(z3.And(xmin.e >= 0, ymin.e >= 0, xmin.e < xmax.e,
+                          ymin.e < ymax.e, r.e > 0))
+        arcs = []
+
+        def area_arc(x1, y1, x2, y2, rr):
+            v = SymReal(ctx.fresh('arc'))
+            arcs.append((x1, y1, x2, y2, rr, v))
+            return v
+        ns['area_arc'] = area_arc
+        res = ns['circular_overlap_core'](xmin, ymin, xmax, ymax, r)
+        cnt['n'] += 1
+        T = lambda v: term(const(v))  # noqa
+        xn, yn, xx, yx, rr = xmin.e, ymin.e, xmax.e, ymax.e, r.e
+        u, v = ctx.fresh('u'), ctx.fresh('v')
+        inrect = z3.And(u >= xn, u <= xx, v >= yn, v <= yx)
+        params = dict(kind='exactcore')
+
+        def lemma(label, phi):
+            # phi must be unsatisfiable together with the path condition
+            ctx.stats.obligations += 1
+            side = ctx._side_for(phi)
+            rs = ctx._check(phi, *side)
+            if rs == z3.unsat:
+                ctx.stats.unsat += 1
+            elif rs == z3.sat:
+                ctx.stats.sat += 1
+                ctx.find(f'exact:core:{label}', label,
+                         ctx.witness(ctx.solver.model()), params=params)
+            else:
+                ctx.stats.unknown += 1
+        if not arcs:
+            # trivial branches: result is 0 or the full rectangle
+            isz = ctx._check(T(res) != 0) == z3.unsat
+            if isz:
+                lemma('zero-branch-but-overlap',
+                      z3.And(inrect, u * u + v * v < rr * rr))
+            else:
+                r_, m = ctx.holds(T(res) == (xx - xn) * (yx - yn), 'full')
+                if r_ == 'sat':
+                    ctx.find('exact:core:full-value', 'full branch value',
+                             ctx.witness(m), params=params)
+                lemma('full-branch-but-outside',
+                      z3.And(inrect, u * u + v * v > rr * rr))
+            return
+        if len(arcs) != 1:
+            ctx.find('exact:core:arc-calls', f'{len(arcs)} arc terms',
+                     ctx.witness(), params=params)
+            return
+        x1, y1, x2, y2, ar, arcv = arcs[0]
+        x1, y1, x2, y2 = T(x1), T(y1), T(x2), T(y2)
+        conds = [x1 * x1 + y1 * y1 == rr * rr, x2 * x2 + y2 * y2 == rr * rr,
+                 T(ar) == rr,
+                 x1 >= xn, x1 <= xx, y1 >= yn, y1 <= yx,
+                 x2 >= xn, x2 <= xx, y2 >= yn, y2 <= yx,
+                 z3.Or(x1 == xn, x1 == xx, y1 == yn, y1 == yx),
+                 z3.Or(x2 == xn, x2 == xx, y2 == yn, y2 == yx)]
+        r_, m = ctx.holds(z3.And(conds), 'chord-endpoints')
+        if r_ == 'sat':
+            ctx.find('exact:core:chord-endpoints', 'chord end points are not '
+                     'on the circle and on the pixel boundary',
+                     ctx.witness(m), params=params)
+        # polygonal part: corners inside the circle + chord end points,
+        # in counter-clockwise order
+        def ins(cx, cy):
+            return ctx._check(z3.Not(cx * cx + cy * cy <= rr * rr)) == z3.unsat
+        c00, c10, c01, c11 = ins(xn, yn), ins(xx, yn), ins(xn, yx), ins(xx, yx)
+        poly = None
+        if c00 and c10 and c01 and not c11:
+            poly = [(xn, yn), (xx, yn), (x2, y2), (x1, y1), (xn, yx)]
+        elif c00 and c10 and not c01:
+            poly = [(xn, yn), (xx, yn), (x2, y2), (x1, y1)]
+        elif c00 and c01 and not c10:
+            poly = [(xn, yn), (x1, y1), (x2, y2), (xn, yx)]
+        elif c00:
+            poly = [(xn, yn), (x1, y1), (x2, y2)]
+        ctx.stats.obligations += 1
+        if poly is None:
+            ctx.stats.unknown += 1
+            return
+        ctx.stats.unsat += 1
+        sh = shoelace(poly)
+        if case.get('twin'):
+            sh = sh + 1
+        r_, m = ctx.holds(T(res) - T(arcv) == sh, 'polygon-part')
+        if r_ == 'sat':
+            ctx.find('exact:core:polygon-part', 'result minus the arc term is '
+                     'not the area of the polygon (corners inside + chord '
+                     'end points)', ctx.witness(m), params=params)
+        if len(samples) < 2:
+            samples.append(dict(corners_inside=[c00, c10, c01, c11]))
+
+    _, st, f = explore(fn, timeout_ms=30000)
+    return dict(stats=st, findings=f, samples=samples, nontrivial=cnt['n'])
+
+
 # ---------------------------------------------------------------- translation validation
 def _tv_check(seed, n):
     from photutils.geometry import (circular_overlap_grid,
@@ -693,6 +906,7 @@ def run_case(case):
     return {'from_float': _run_from_float, 'slices': _run_slices,
             'setops': _run_setops, 'extent': _run_extent,
             'wiring': _run_wiring, 'kernel': _run_kernel,
+            'exactsplit': _run_exactsplit, 'exactcore': _run_exactcore,
             'tv': _run_tv}[case['kind']](case)
 
 
@@ -721,10 +935,31 @@ def cases(tier, seed):
                            shape=sh, sp=sp, lazy=True))
     cs.append(dict(kind='kernel', name='kernel-circle-twin', shape='circle',
                    sp=2, twin=True))
+    cs.append(dict(kind='exactsplit', name='exact-circle-quadrant-split'))
+    cs.append(dict(kind='exactsplit', name='exact-circle-split-twin',
+                   twin=True))
+    cs.append(dict(kind='exactcore', name='exact-circle-core'))
+    cs.append(dict(kind='exactcore', name='exact-circle-core-twin',
+                   twin=True))
     for k in range(4 if tier == 'quick' else 12):
         cs.append(dict(kind='tv', name=f'translation-validation-{k}',
                        seed=seed * 100 + k, n=100 if tier == 'quick' else 250))
     return cs
+
+
+def _replay_exact(w):
+    """Compiled exact kernel vs. a fine sub-pixel count on the witness
+    rectangle (an independent numerical estimate of the overlap area)."""
+    from photutils.geometry import circular_overlap_grid
+    try:
+        xmin, xmax = float(w['xmin']), float(w['xmax'])
+        ymin, ymax = float(w['ymin']), float(w['ymax'])
+        r = float(w['r'])
+    except (KeyError, TypeError, ValueError):
+        return False, 'no numeric witness'
+    a = circular_overlap_grid(xmin, xmax, ymin, ymax, 1, 1, r, 1, 1)[0, 0]
+    b = circular_overlap_grid(xmin, xmax, ymin, ymax, 1, 1, r, 0, 400)[0, 0]
+    return abs(a - b) > 2e-3, f'exact fraction {a} vs 400x400 sub-sampling {b}'
 
 
 def replay(f):
@@ -771,6 +1006,8 @@ def replay(f):
             abs(np.max(np.abs(Y)) - ey) > 1e-5 * max(1, ey)
         return bad, f'a={a} b={b} theta={th}: extents {(ex, ey)} vs sampled ' \
                     f'{(np.max(np.abs(X)), np.max(np.abs(Y)))}'
+    if k in ('exactsplit', 'exactcore'):
+        return _replay_exact(w)
     if k == 'kernel':
         # replay on the compiled kernel through the public grid function
         from photutils.geometry import (circular_overlap_grid,
